@@ -31,6 +31,8 @@ CLAIMED["C05"] = ("other", "Bracket-depth abstract interpretation over every emi
          "abstract interpretation of bracket depth over the derived grammar + exhaustiveness tables")
 CLAIMED["C06"] = ("other", "Provenance of the scope in every expression context, the single guarded lookup site as path facts, closedness class of stored let values from the derived grammar, let mode, lets after the query, store order, parameter copy. Evaluation equivalence of substituted SQL is not decided.", "DESIGN.md §3 C06",
          "value-provenance over call sites + path facts at the lookup site + grammar class of the let production")
+CLAIMED["C03"] = ("other", "Join-kind table agreement parser/compiler/documentation, what is written per kind read off the derived grammar with path facts (DISTINCT, JOIN, LEFT JOIN), left index fixed before the recursion on the right-hand pipeline, bare-name rewrite and AND-fold shapes, $left/$right gate. Join result equality on databases is not decided.", "DESIGN.md §3 C03",
+         "table agreement + path facts on the derived join-source grammar + AST shape rules")
 NA = {}
 def main():
     props = [json.loads(l) for l in open('/verif/properties.jsonl')]
